@@ -118,7 +118,7 @@ class Integrator(object):
         param = self.pulse_parametrization
 
         # We scale this parametrization such that scaled_param(t=0) == 0 and scaled_param(t=1) == theta.
-        scaled_param = lambda t: param(t) * theta
+        scaled_param = lambda t: a * param(t / a) * theta
 
         # We parametrize the integrand and integrate it from 0 to a. Integral should go from 0 to a.
         integrand_p = lambda t: integrand(scaled_param(t), a)
